@@ -61,4 +61,53 @@ theorem render_words_bound (f : Frame) (hf : f.WF) : ∀ w ∈ renderFrame f, w 
   rcases hw with rfl | rfl | rfl | rfl | rfl | rfl | rfl | rfl | rfl | rfl | rfl | rfl | rfl | rfl | rfl | rfl | rfl | rfl | rfl | rfl | rfl | hw | hw
   all_goals first | omega | exact h5 _ hw | exact h6 _ hw | (simp at hw)
 
+
+theorem parseXtcFrame_render (f : XtcFrame) (hf : f.SmallWF) (rest : List Nat) :
+    parseXtcFrame (renderXtc f ++ rest) = some (f, rest) := by
+  obtain ⟨hn, hb, hx, hp, _, _, _, _⟩ := hf
+  have hlen : 10 ≤ (f.box ++ (f.natoms :: (f.x ++ rest))).length := by simp [hb]; omega
+  have hhead : ((f.box ++ (f.natoms :: (f.x ++ rest))).drop 9).head? = some f.natoms := by rw [← hb]; simp
+  have htake : (f.box ++ (f.natoms :: (f.x ++ rest))).take 9 = f.box := by rw [← hb]; exact List.take_left
+  have hdrop : (f.box ++ (f.natoms :: (f.x ++ rest))).drop 10 = f.x ++ rest := by
+    have : (f.box ++ (f.natoms :: (f.x ++ rest))).drop (f.box.length + 1) = f.x ++ rest := by rw [← List.drop_drop]; simp
+    rwa [hb] at this
+  have hxl : 3 * f.natoms ≤ (f.x ++ rest).length := by simp [hx]
+  have hxt : (f.x ++ rest).take (3 * f.natoms) = f.x := by rw [← hx]; exact List.take_left
+  have hxd : (f.x ++ rest).drop (3 * f.natoms) = rest := by rw [← hx]; exact List.drop_left
+  simp only [renderXtc, hp, List.append_nil, List.cons_append, List.nil_append, List.append_assoc, parseXtcFrame,
+    hlen, hhead, htake, hdrop, hn, hxl, hxt, hxd, and_self, if_true]
+  cases f; simp_all
+
+theorem renderXtc_ne_nil (f : XtcFrame) : ∃ a l, renderXtc f = a :: l := ⟨1995, _, rfl⟩
+
+theorem parseXtcAll_render (fs : List XtcFrame) (h : ∀ f ∈ fs, f.SmallWF) (fuel : Nat) (hfuel : fs.length < fuel) :
+    parseXtcAll fuel (fs.flatMap renderXtc) = some fs := by
+  induction fs generalizing fuel with
+  | nil => cases fuel <;> rfl
+  | cons f fs ih =>
+    cases fuel with
+    | zero => simp at hfuel
+    | succ fuel =>
+      simp only [List.flatMap_cons]
+      obtain ⟨a, l, hl⟩ : ∃ a l, renderXtc f ++ fs.flatMap renderXtc = a :: l := ⟨1995, _, rfl⟩
+      rw [hl]
+      simp only [parseXtcAll]
+      rw [← hl, parseXtcFrame_render f (h f (by simp))]
+      simp only [ih (fun x hx => h x (by simp [hx])) fuel (by simpa using hfuel), Option.map_some]
+
+theorem renderXtc_bound (f : XtcFrame) (hf : f.SmallWF) : ∀ w ∈ renderXtc f, w < 4294967296 := by
+  obtain ⟨hn, _, _, hp, h1, h2, h3, h4⟩ := hf
+  intro w hm
+  simp only [renderXtc, hp, List.append_nil, List.mem_append, List.mem_cons, List.mem_nil_iff, or_false, List.mem_singleton] at hm
+  rcases hm with (((rfl | rfl | rfl | rfl) | hb) | rfl) | hx
+  all_goals first | omega | exact h3 _ hb | exact h4 _ hx
+
+theorem flatMap_xtc_length (fs : List XtcFrame) : fs.length ≤ (fs.flatMap renderXtc).length := by
+  induction fs with
+  | nil => simp
+  | cons f fs ih =>
+    have : 0 < (renderXtc f).length := by simp [renderXtc]
+    simp only [List.flatMap_cons, List.length_append, List.length_cons]
+    omega
+
 end MdVerif.Xdr
